@@ -54,6 +54,20 @@ struct Exporter {
       o["sz"] = (int64_t)C.getTypeSizeInChars(T).getQuantity();
   }
 
+  // value of a named floating constant (const-qualified, not a local, initialiser evaluable at compile time)
+  void floatConst(J::Object& o, const VarDecl* VD) {
+    if (!VD || VD->isLocalVarDecl() || isa<ParmVarDecl>(VD)) return;
+    QualType T = VD->getType();
+    if (T.isNull() || T->isDependentType() || !T.isConstQualified() || !T->isRealFloatingType()) return;
+    const Expr* I = VD->getAnyInitializer();
+    if (!I || I->isValueDependent() || I->isTypeDependent()) return;
+    llvm::APFloat F(0.0);
+    if (I->EvaluateAsFloat(F, C, Expr::SE_NoSideEffects)) {
+      bool lose = false; F.convert(llvm::APFloat::IEEEdouble(), llvm::APFloat::rmNearestTiesToEven, &lose);
+      o["fv"] = F.convertToDouble();
+    }
+  }
+
   J::Value expr(const Expr* E) {
     if (!E) return nullptr;
     // unwrap transparent nodes
@@ -91,13 +105,14 @@ struct Exporter {
       if (isa<ParmVarDecl>(D)) dk = "param"; else if (auto* VD = dyn_cast<VarDecl>(D)) dk = VD->isLocalVarDecl() ? (VD->isStaticLocal() ? "staticlocal" : "local") : "global";
       else if (isa<EnumConstantDecl>(D)) dk = "enum"; else if (isa<FunctionDecl>(D)) dk = "func"; else if (isa<FieldDecl>(D)) dk = "field"; else if (isa<BindingDecl>(D)) dk = "binding";
       o["dk"] = dk; if (strcmp(dk, "global") == 0 || strcmp(dk, "func") == 0 || strcmp(dk, "enum") == 0) o["q"] = qname(D);
+      if (auto* VD = dyn_cast<VarDecl>(D)) floatConst(o, VD);
     }
     else if (auto* X = dyn_cast<MemberExpr>(E)) {
       const ValueDecl* D = X->getMemberDecl();
       o["k"] = "Member"; o["f"] = D->getNameAsString(); o["fid"] = idOf(D); o["arrow"] = X->isArrow(); o["b"] = expr(X->getBase());
       if (auto* FD = dyn_cast<FieldDecl>(D)) { o["rec"] = recTmpl(dyn_cast<CXXRecordDecl>(FD->getParent())); o["isfield"] = true; }
       else if (auto* MD = dyn_cast<CXXMethodDecl>(D)) { o["rec"] = recTmpl(MD->getParent()); o["ismethod"] = true; }
-      else if (auto* VD = dyn_cast<VarDecl>(D)) { o["q"] = qname(VD); o["isstatic"] = true; }
+      else if (auto* VD = dyn_cast<VarDecl>(D)) { o["q"] = qname(VD); o["isstatic"] = true; floatConst(o, VD); }
     }
     else if (auto* X = dyn_cast<CXXOperatorCallExpr>(E)) {
       o["k"] = "OpCall"; o["op"] = getOperatorSpelling(X->getOperator());
@@ -137,7 +152,13 @@ struct Exporter {
     else if (auto* X = dyn_cast<CXXNewExpr>(E)) { o["k"] = "New"; o["array"] = X->isArray(); o["of"] = ty(X->getAllocatedType()); if (X->getNumPlacementArgs() > 0) o["placement"] = expr(X->getPlacementArg(0)); if (X->isArray() && X->getArraySize()) o["n"] = expr(*X->getArraySize()); if (X->getInitializer()) o["init"] = expr(X->getInitializer()); }
     else if (auto* X = dyn_cast<CXXDeleteExpr>(E)) { o["k"] = "Delete"; o["array"] = X->isArrayForm(); o["e"] = expr(X->getArgument()); }
     else if (auto* X = dyn_cast<CXXPseudoDestructorExpr>(E)) { o["k"] = "PseudoDtor"; o["b"] = expr(X->getBase()); }
-    else if (auto* X = dyn_cast<CXXThrowExpr>(E)) { o["k"] = "Throw"; if (X->getSubExpr()) { o["what"] = ty(X->getSubExpr()->getType()); } }
+    else if (auto* X = dyn_cast<CXXThrowExpr>(E)) { o["k"] = "Throw"; if (X->getSubExpr()) { o["what"] = ty(X->getSubExpr()->getType());
+      // declarations read by the thrown expression (ids only: the message itself is of no interest to any rule)
+      J::Array used; std::vector<const Stmt*> work{X->getSubExpr()};
+      while (!work.empty()) { const Stmt* S = work.back(); work.pop_back(); if (!S) continue;
+        if (auto* DR = dyn_cast<DeclRefExpr>(S)) used.push_back(idOf(DR->getDecl()));
+        for (const Stmt* Ch : S->children()) work.push_back(Ch); }
+      o["uses"] = std::move(used); } }
     else if (auto* X = dyn_cast<LambdaExpr>(E)) { o["k"] = "Lambda"; o["body"] = stmt(X->getBody()); J::Array caps; for (auto& c : X->captures()) if (c.capturesVariable()) caps.push_back(J::Object{{"n", c.getCapturedVar()->getNameAsString()}, {"d", idOf(c.getCapturedVar())}, {"byref", c.getCaptureKind() == LCK_ByRef}}); o["caps"] = std::move(caps); J::Array lps; if (auto* CO = X->getCallOperator()) for (auto* P : CO->parameters()) lps.push_back(J::Object{{"n", P->getNameAsString()}, {"d", idOf(P)}, {"t", P->getType().getAsString()}}); o["params"] = std::move(lps); }
     else if (auto* X = dyn_cast<InitListExpr>(E)) { o["k"] = "InitList"; J::Array a; for (auto* I : X->inits()) a.push_back(expr(I)); o["args"] = std::move(a); }
     else if (auto* X = dyn_cast<CXXScalarValueInitExpr>(E)) { (void)X; o["k"] = "ZeroInit"; }
